@@ -6,6 +6,14 @@ VERIF = os.path.dirname(os.path.dirname(os.path.abspath(__file__)))
 
 # id -> (category, technique, text, note)
 CLAIMS = {
+    'C18': ('other',
+            'static analysis: class-declaration model of ppc_arch (field tiling, pairwise satisfiability of acceptance predicates over opcode bits, MRO-resolved rendering attributes) compared with an independent PowerPC opcode map',
+            'From the declarations alone: every class tiles 32 bits; every pair of the 82 classes has disjoint acceptance predicates (fixed bits + extended-opcode sets, '
+            'enumerated exactly over the opcode bit positions, never over words); re-encode identity of every field class; name tables total/injective and aligned with '
+            'the opcode field; every attribute the renderer reads exists for each concrete class through its MRO; (primary, extended) -> mnemonic equals ref/ppc_opcodes.ref; '
+            'assembler entry point free of always-raising constructs.',
+            'Not decided: operand field rendering/parsing for concrete values. 30 genuine defects of the (untested, python-2 era) PowerPC module are listed in known_findings.json. '
+            'Trusted: ref/ppc_opcodes.ref; opcodes unknown to the reference are not judged.'),
     'C05': ('other',
             'static analysis: abstract interpretation of list positions in the constant-folding loop (left/right operand identity), operator-set inclusion between the zero-drop and unwrap guards',
             'Decides two necessary operand-discipline conditions of meaning preservation: every folding branch applies the Python operator its operator string '
